@@ -540,6 +540,18 @@ func c07ExDump(exs []simnode.Exchange, muts []simnode.Mut) []map[string]any {
 
 // ---------------------------------------------------------------- judging
 
+func c07MethodOfKind(kind string) string {
+	switch kind {
+	case simnode.ExReceipts:
+		return "eth_getBlockReceipts"
+	case simnode.ExLogs:
+		return "eth_getLogs"
+	case simnode.ExTrace:
+		return "trace_block"
+	}
+	return "eth_getBlockByNumber"
+}
+
 func c07MutKinds(muts []simnode.Mut) string {
 	var ks []string
 	for _, m := range muts {
@@ -586,21 +598,18 @@ func (s *c07Scenario) judge(tag string, muts []simnode.Mut) {
 	v := refmodel.Attach(s.start, s.limit, c07ToAtt(r.exs))
 	methodOfMut := "eth_getBlockByNumber"
 	if len(muts) > 0 && muts[0].Seq < len(s.base) {
-		switch s.base[muts[0].Seq].Kind {
-		case simnode.ExReceipts:
-			methodOfMut = "eth_getBlockReceipts"
-		case simnode.ExLogs:
-			methodOfMut = "eth_getLogs"
-		case simnode.ExTrace:
-			methodOfMut = "trace_block"
-		}
+		methodOfMut = c07MethodOfKind(s.base[muts[0].Seq].Kind)
 	}
 	switch {
 	case r.panicv != "":
 		d := detail(v, nil)
 		d["panic"] = r.panicv
 		d["stack"] = c07Trim(r.stack, 3000)
-		c.Violate(fmt.Sprintf("c07:%s:panic:%s", methodOfMut, r.frame), d, "Get panicked in %s on mutation %s (plan %s): %s", r.frame, mk, s.plan, r.panicv)
+		pm := methodOfMut
+		if n := len(r.exs); n > 0 {
+			pm = c07MethodOfKind(r.exs[n-1].Kind)
+		}
+		c.Violate(fmt.Sprintf("c07:%s:panic:%s", pm, r.frame), d, "Get panicked in %s on mutation %s (plan %s): %s", r.frame, mk, s.plan, r.panicv)
 		c.SetSig("%s|%s|%s|panic", s.plan, mk, pos)
 	case r.err != nil:
 		c.Obs("rejected", 1)
@@ -615,10 +624,10 @@ func (s *c07Scenario) judge(tag string, muts []simnode.Mut) {
 		c.SetSig("%s|%s|%s|rejected", s.plan, mk, pos)
 	case len(v.MustErr) > 0:
 		c.Obs("must_error_runs", 1)
-		for _, rs := range v.MustErr {
-			c.Violate(fmt.Sprintf("c07:%s:%s:accepted-inconsistent", rs.Method, rs.Kind), detail(v, nil),
-				"Get succeeded although the responses were inconsistent (%s in %s; mutation %s, plan %s, %s client)", rs.Kind, rs.Method, mk, s.plan, client)
-		}
+		// the first inconsistency (in exchange order) is the one the client had to stop at
+		rs := v.MustErr[0]
+		c.Violate(fmt.Sprintf("c07:%s:%s:accepted-inconsistent", rs.Method, rs.Kind), detail(v, nil),
+			"Get succeeded although the responses were inconsistent (%s in %s; mutation %s, plan %s, %s client)", rs.Kind, rs.Method, mk, s.plan, client)
 		c.SetSig("%s|%s|%s|accepted-inconsistent", s.plan, mk, pos)
 	default:
 		kinds := map[string]bool{}
@@ -640,17 +649,6 @@ func (s *c07Scenario) judge(tag string, muts []simnode.Mut) {
 		}
 		// one violation per run: the cause as the oracle names it (a note) or the mutation
 		// kind, and the most telling outcome among the differences
-		why, renamed := mk, false
-		for _, n := range v.Notes {
-			switch n.Kind {
-			case "surplus-element", "head-names-other-block", "empty-trace-result":
-				continue
-			}
-			if !renamed {
-				why = n.Kind
-			}
-			renamed = true
-		}
 		rank := map[string]int{"misplaced": 5, "wrong-range": 4, "lost": 3, "altered": 2, "extra": 1}
 		best := diffs[0]
 		score := func(d c07Diff) int {
@@ -665,10 +663,36 @@ func (s *c07Scenario) judge(tag string, muts []simnode.Mut) {
 				best = df
 			}
 		}
+		method := strings.TrimSuffix(strings.TrimSuffix(best.Method, "/log"), "/tx")
+		// the cause: a note of the oracle (value independent) or, failing that, the kinds of the
+		// mutations that touched the exchange the misattached data came from
+		why, renamed := "", false
+		for _, want := range []string{"item-names-other-block", "nested-log-disagrees-with-receipt"} {
+			for _, n := range v.Notes {
+				if n.Kind == want && !renamed {
+					why, renamed = n.Kind, true
+					method = strings.TrimSuffix(n.Method, "/log")
+				}
+			}
+		}
+		if !renamed {
+			var ks []string
+			for _, m := range muts {
+				if m.Seq < len(s.base) && c07MethodOfKind(s.base[m.Seq].Kind) == method {
+					ks = append(ks, m.Kind)
+				}
+			}
+			sort.Strings(ks)
+			why = strings.Join(ks, "+")
+			if why == "" {
+				why = mk
+			}
+		}
 		outcome := best.Outcome
 		if renamed && outcome != "wrong-range" {
 			outcome = "misplaced" // items that name another block/tx ended up somewhere else than named
 		}
+		methodOfMut = method
 		c.Violate(fmt.Sprintf("c07:%s:%s:%s", methodOfMut, why, outcome), detail(v, diffs),
 			"Get succeeded with unfaithful data (%s; mutation %s, plan %s, %s client)", best.Msg, mk, s.plan, client)
 		c.SetSig("%s|%s|%s|unfaithful", s.plan, mk, pos)
